@@ -678,21 +678,34 @@ func runC09Satisfied(c *Ctx) {
 		return
 	}
 	paths := fx.retPaths(fn, 0, WantFalse)
-	for i, rp := range paths {
-		_, over := hasFact(rp.Facts, func(f Fact) bool {
+	accept := func(fs FactSet) bool {
+		_, over := hasFact(fs, func(f Fact) bool {
 			return !f.Pol && f.T.Op == "bin" && f.T.Name == "<=" && f.T.Args[0].lastField() == "Request" && f.T.Args[1].lastField() == "FairShare"
 		})
-		_, unlimited := hasFact(rp.Facts, func(f Fact) bool {
+		_, unlimited := hasFact(fs, func(f Fact) bool {
 			if f.T.Op != "bin" || len(f.T.Args) != 2 {
 				return false
 			}
 			isMax := f.T.Args[0].lastField() == "MaxAllowed" && f.T.Args[1].String() == "const:-1"
 			return isMax && ((f.T.Name == "==" && f.Pol) || (f.T.Name == "!=" && !f.Pol))
 		})
-		_, above := hasFact(rp.Facts, func(f Fact) bool {
+		_, above := hasFact(fs, func(f Fact) bool {
 			return !f.Pol && f.T.Op == "bin" && f.T.Name == "<=" && f.T.Args[0].lastField() == "MaxAllowed" && f.T.Args[1].lastField() == "FairShare"
 		})
-		c.Check(over && (unlimited || above), "O9", "RET", fmt.Sprintf("%s unsatisfied path#%d", funcKey(fn), i), rp.Pos,
+		return over && (unlimited || above)
+	}
+	for i, rp := range paths {
+		ok := accept(rp.Facts)
+		if !ok {
+			// the two reasons may have been folded into named booleans (φ of comparisons): every way of reaching the
+			// 'unsatisfied' answer, with such conditions split per way they can hold, must establish them
+			for _, b := range fn.Blocks {
+				if ret, isRet := b.Instrs[len(b.Instrs)-1].(*ssa.Return); isRet && ret.Pos() == rp.Pos {
+					ok = fx.allPathsSatisfy(ret, accept)
+				}
+			}
+		}
+		c.Check(ok, "O9", "RET", fmt.Sprintf("%s unsatisfied path#%d", funcKey(fn), i), rp.Pos,
 			"request > fair share ∧ (limit unlimited ∨ limit > fair share)",
 			"a queue can count as unsatisfied although its request is within its fair share or a finite limit (0 included) stops it at its fair share: it keeps a share weight and is offered surplus it cannot take; facts: "+trunc(rp.Facts.String(), 400))
 	}
